@@ -391,6 +391,26 @@ let ow_oracle sc en kind e1 e2 obs =
   let vis l = dotted (if en then vis_e_plain (spec_enumerate l) else vis_r_plain (List.rev l)) in
   obs = Printf.sprintf "OW %s %s" (vis e1) (match ow_second sc with `First -> vis e1 | `Second -> vis e2 | `None -> "-")
 
+(* ---- manual iteration over begin()/end(): every form visits what the range-for visits ---- *)
+let rec drop k l = if k <= 0 then l else match l with [] -> [] | _ :: r -> drop (k - 1) r
+let mi_line en elems =
+  let n = List.length elems in
+  let full, items =
+    if en then (match enumerate_rvalue elems with Done vs -> (dotted (vis_e_plain vs), List.map (fun (i, v) -> Printf.sprintf "%d:%d" (int_of_nat i) v) vs) | _ -> ("HANG", []))
+    else (match reverse_rvalue elems with Done vs -> (dotted (vis_r_plain vs), List.map string_of_int vs) | _ -> ("HANG", [])) in
+  let suffix = dotted (String.concat "," (drop (n / 2) items)) in
+  let base = Printf.sprintf "MI %s %s %s %s %s %s" full full full suffix suffix full in
+  if en then base
+  else Printf.sprintf "%s X %s %d %s %s" base full n full (if n = 0 then "." else List.nth items (n / 2))
+let mi_valid kind mode = List.mem kind ["vec"; "list"; "map"; "fv"] && (mode = "l" || mode = "r")
+(* the SPEC side: the same line computed from spec_enumerate / rev *)
+let mi_spec en elems =
+  let n = List.length elems in
+  let items = if en then List.map (fun (i, v) -> Printf.sprintf "%d:%d" (int_of_nat i) v) (spec_enumerate elems) else List.map string_of_int (List.rev elems) in
+  let full = dotted (String.concat "," items) and suffix = dotted (String.concat "," (drop (n / 2) items)) in
+  let base = Printf.sprintf "MI %s %s %s %s %s %s" full full full suffix suffix full in
+  if en then base else Printf.sprintf "%s X %s %d %s %s" base full n full (if n = 0 then "." else List.nth items (n / 2))
+
 (* ------------------------------------------------------------------ dispatch *)
 let model (w : string list) : string =
   try
@@ -421,6 +441,7 @@ let model (w : string list) : string =
         let x = parse_value sx in
         (match x with VPtr _ -> Printf.sprintf "A 1 %s %s" (hex_of_n (mhash x)) (hex_of_n (mhash x)) | _ -> "BADCASE")
     | [("en" | "rv") as a; kind; mode; elems] -> iter_model (a = "en") kind mode (ints_of_wire elems)
+    | ["mi"; ("en" | "rv") as a; kind; mode; elems] -> if mi_valid kind mode then mi_line (a = "en") (ints_of_wire elems) else "BADCASE"
     | ["re"; sc; kind; mode; elems] -> reuse_model sc kind mode (ints_of_wire elems)
     | ["ow"; sc; ("en" | "rv") as a; kind; e1; e2] -> ow_model sc (a = "en") kind (ints_of_wire e1) (ints_of_wire e2)
     | "mc" :: sc :: kind :: mode :: (([_; _] | [_; _; _]) as es) -> mc_model sc kind mode (List.map ints_of_wire es)
@@ -457,6 +478,7 @@ let oracle (w : string list) (obs : string) : bool =
   | ["h"; ("P" | "Q"); code; sa; sb; sf], _ -> history_oracle code sa sb sf obs
   | ["a"; "SQ"; _], ["A"; e; hx; hy] -> e = "1" && hx = hy
   | [("en" | "rv") as a; kind; mode; elems], _ -> iter_oracle (a = "en") kind mode (ints_of_wire elems) obs
+  | ["mi"; ("en" | "rv") as a; kind; mode; elems], _ -> if mi_valid kind mode then obs = mi_spec (a = "en") (ints_of_wire elems) else obs = "BADCASE"
   | ["re"; sc; kind; mode; elems], _ -> reuse_oracle sc kind mode (ints_of_wire elems) obs
   | ["ow"; sc; ("en" | "rv") as a; kind; e1; e2], _ -> ow_oracle sc (a = "en") kind (ints_of_wire e1) (ints_of_wire e2) obs
   | "mc" :: sc :: kind :: mode :: (([_; _] | [_; _; _]) as es), _ -> mc_oracle sc kind mode (List.map ints_of_wire es) obs
